@@ -98,8 +98,9 @@ func (s *scanner) peek() (*pb.Result, error) {
 	if err != nil {
 		return nil, err
 	}
-	if !s.closed && s.rpc.RenewInterval() > 0 {
-		// Start up a renewer
+	if !s.closed && s.rpc.RenewInterval() > 0 && !s.isRegionScannerClosed() {
+		// Start up a renewer (between regions there is no scanner to renew: a
+		// renew request without a scanner id would open one that is never closed)
 		renewCtx, cancel := context.WithCancel(s.rpc.Context())
 		s.renewCancel = cancel
 		go s.renewLoop(renewCtx, s.startRow, s.curRegionScannerID)
